@@ -1,0 +1,7 @@
+//! Verification hooks, compiled only with `--cfg iroh_verif`.
+//!
+//! This module only re-exports the per-module `verif_hooks` so that an external
+//! harness can reach crate-private code.  Nothing here exists in a normal build.
+
+/// Mapped-address maps and classification.
+pub use crate::socket::mapped_addrs::verif_hooks as mapped_addrs;
